@@ -144,6 +144,8 @@ def runOpsM (m : Mix) (s : BSt) (ops : List Op) : BSt := ops.foldl (fun s o => (
 /-- scope test of the approximation: some context of the unbounded frontend was refused a reservation
     (the real queue would have grown instead) -/
 def uRefused (m : Mix) (s : BSt) : Bool :=
-  s.ths.any (fun t => isU m t && (t.fail != 0 || t.discarded != 0 || t.blockedCalls != 0))
+  s.ths.any (fun t => isU m t && (t.fail != 0 || t.discarded != 0 || t.blockedCalls != 0)) ||
+  -- a control request (flush, backtrace, removal) of an unbounded-frontend thread waiting for room: not counted, but refused
+  s.actors.any (fun x => m.uActors.contains x.id && (match x.pend with | .retry _ _ => true | _ => false))
 
 end Backend
